@@ -4,5 +4,5 @@ CONSTANTS
   NValOf <- NQuick
   EmitOn = TRUE
 ACTION_CONSTRAINT Emit
-PROPERTIES PropagationLaw EqualityLaw
+PROPERTIES PropagationLaw EqualityLaw FlagLaw
 CHECK_DEADLOCK FALSE
